@@ -6,7 +6,35 @@
 // process handles are replaced by the opaque types below (logged substitutions).
 // ======================================================================================
 pub uninterp spec fn spec_trim(s: Seq<char>) -> Seq<char>;
-pub uninterp spec fn spec_parens(s: Seq<char>) -> int;
+/// scanner state of smt/parser.rs count_parens: inside a string literal, inside a |quoted symbol|, balance so far
+pub struct PState { pub in_string: bool, pub in_symbol: bool, pub count: int }
+
+pub open spec fn pstep(p: PState, c: char) -> PState {
+    if p.in_string { PState { in_string: c != '"', in_symbol: p.in_symbol, count: p.count } }
+    else if p.in_symbol { PState { in_string: p.in_string, in_symbol: c != '|', count: p.count } }
+    else if c == '"' { PState { in_string: true, in_symbol: false, count: p.count } }
+    else if c == '|' { PState { in_string: false, in_symbol: true, count: p.count } }
+    else if c == '(' { PState { in_string: false, in_symbol: false, count: p.count + 1 } }
+    else if c == ')' { PState { in_string: false, in_symbol: false, count: p.count - 1 } }
+    else { p }
+}
+
+pub open spec fn pscan(s: Seq<char>) -> PState
+    decreases s.len(),
+{
+    if s.len() == 0 { PState { in_string: false, in_symbol: false, count: 0 } } else { pstep(pscan(s.drop_last()), s.last()) }
+}
+
+/// number of STRUCTURAL '(' minus ')' — parentheses inside string literals and quoted symbols are not structure
+/// (the contract of count_parens; checked on the real function by Kani for all texts up to a stated length)
+pub open spec fn spec_parens(s: Seq<char>) -> int { pscan(s).count }
+
+/// a blank does not change the balance (proved)
+pub broadcast proof fn lemma_parens_push_blank(s: Seq<char>)
+    ensures #[trigger] spec_parens(s.push(' ')) == spec_parens(s),
+{
+    assert(s.push(' ').drop_last() =~= s);
+}
 
 pub assume_specification<'a> [ str::trim ] (s: &'a str) -> (r: &'a str)
     ensures r@ == spec_trim(s@);
@@ -27,8 +55,12 @@ impl XStdout {
     pub uninterp spec fn remaining(&self) -> nat;
 
     /// BufRead::read_line: appends one line; Ok(0) exactly at end of stream (`?` converts io::Error into Error::Io)
+    /// PROTOCOL (requires): the solver writes one reply per request and then waits; a reply is complete as soon as it has no
+    /// open parenthesis left.  Asking for another line after a complete reply blocks for ever on a live solver, so a reader may
+    /// only call this on an empty buffer (first line of a reply) or while the reply read so far is incomplete.
     #[verifier::external_body]
     pub fn read_line(&mut self, buf: &mut String) -> (r: Result<usize>)
+        requires old(buf)@.len() == 0 || spec_parens(old(buf)@) > 0,
         ensures match r {
             Ok(n) => n <= old(self).remaining() && final(self).remaining() == old(self).remaining() - n
                      && ((n == 0) <==> (old(self).remaining() == 0)),
